@@ -9,6 +9,9 @@ from __future__ import annotations
 import hashlib
 import json
 
+import itertools
+
+_COUNTER = itertools.count()
 MODES = [(False, False), (True, False), (False, True), (True, True)]
 ABSENT = "<absent>"
 
@@ -332,19 +335,27 @@ def written_extended_prefix_map(curies_module, conv, dirpath):
     fn = getattr(curies_module, "write_extended_prefix_map", None)
     if fn is None:
         return ABSENT
-    path = os.path.join(dirpath, "epm.json")
+    path = os.path.join(dirpath, f"epm{next(_COUNTER)}.json")      # a path that does not exist yet
     try:
         fn(conv, path)
         with open(path, encoding="utf-8") as f:
             data = json.load(f)
     except Exception as e:  # noqa: BLE001
         return ["exc", type(e).__name__]
-    if not isinstance(data, list):
-        return ["ok", canon(data)]
-    out = []
-    for rec in data:
-        if isinstance(rec, dict):
-            # (an empty list, an empty string or null says the same as leaving the key out)
-            rec = {k: (sorted(v, key=str) if isinstance(v, list) else v) for k, v in rec.items() if v not in ([], None, "")}
-        out.append(canon(rec))
-    return ["ok", sorted(out, key=lambda x: json.dumps(x, sort_keys=True))]
+    finally:
+        try:
+            os.unlink(path)
+        except OSError:
+            pass
+
+    def norm(v):
+        # the ORDER of records in the file and of names in a synonym list is not regulated (the live converter
+        # appends, the constructor sorts): every list is compared as a multiset, wherever it sits; empty
+        # values say the same as leaving the key out
+        if isinstance(v, dict):
+            return {str(k): norm(x) for k, x in v.items() if x not in ([], None, "")}
+        if isinstance(v, list):
+            return sorted((norm(x) for x in v), key=lambda x: json.dumps(x, sort_keys=True))
+        return canon(v)
+
+    return ["ok", norm(data)]
